@@ -370,6 +370,8 @@ class TaggedFields(AbstractType[dict[int, bytes]]):
             prev_tag = tag
             size = UnsignedVarInt32.decode(data)
             val = data.read(size)
+            if len(val) != size:
+                raise ValueError("Buffer underrun decoding tagged field")
             ret[tag] = val
         return ret
 
